@@ -157,9 +157,8 @@ pub fn execute(plan: &Plan, entropy: u64) -> RunReport {
     // `try_remove_oldest_peers` ranks peers by `last_seen.elapsed()` evaluated one after the other, so a
     // thread preempted between two evaluations for longer than the distance of two stamps evicts the
     // wrong peer. The sim keeps stamps STAMP_GAP apart, reads the guarded timer around that ranking for
-    // every call that can trim peers stamped during the run, repeats an in-memory operation (on a fresh
-    // seeded thread) and re-executes the whole plan (writer segments) when the ranking took long enough
-    // for the wall clock to have decided. Reader probes log only counts in that situation.
+    // every call that can trim peers stamped during the run, and re-executes the whole plan on a fresh
+    // thread when a ranking took long enough for the wall clock to have decided.
     let mut reruns = 0;
     loop {
         // a re-execution needs a fresh OS thread like the first one (std caches the HashMap keys per thread)
@@ -196,6 +195,7 @@ fn execute_once(plan: &Plan, entropy: u64) -> (RunReport, bool) {
         return (r, false);
     }
     let _guard = RunDir(dir.clone());
+    hooks::measure_trim_windows(true);
     let started = Instant::now();
     let mut w = World::new(plan, entropy, dir);
     let r = catch_unwind(AssertUnwindSafe(|| w.run()));
@@ -288,42 +288,6 @@ impl<'a> World<'a> {
     fn before_stamping_op(&self) {
         while self.last_stamp.elapsed() < STAMP_GAP {
             std::hint::spin_loop();
-        }
-    }
-
-    /// Could a call on `input` (plus `extra_now_peers` peers stamped inside the call) trim peers among
-    /// two or more peers whose stamps were taken during this run? A function of the input only.
-    fn trim_sensitive(&self, input: &Snap, extra_now_peers: usize) -> bool {
-        let elig = input.eligible(SystemTime::now(), self.expiry);
-        if elig.n_nonempty_peers() + extra_now_peers <= self.plan.max_peers {
-            return false;
-        }
-        let recent = elig
-            .peers
-            .values()
-            .filter(|v| v.iter().any(|(_, e)| fmt_ls(e.ls, self.base) == "now"))
-            .count();
-        recent + extra_now_peers >= 2
-    }
-
-    /// Run a clock-sensitive in-memory operation on a fresh OS thread with a fixed entropy seed, so
-    /// that repeating it (after a preemption) starts from exactly the same hidden state (std keeps
-    /// the HashMap keys per thread and advances them with every map created).
-    fn on_op_thread<T: Send + 'static>(&self, f: impl FnOnce() -> T + Send + 'static) -> T {
-        let seed = simkit::mix(self.entropy, 0x0b_0000 + self.rep.steps);
-        let h = std::thread::Builder::new()
-            .name("op".into())
-            .spawn(move || {
-                if simkit::shim::loaded() {
-                    simkit::shim::reseed(seed);
-                }
-                hooks::measure_trim_windows(true);
-                f()
-            })
-            .expect("spawn op thread");
-        match h.join() {
-            Ok(v) => v,
-            Err(p) => resume_unwind(p),
         }
     }
 
@@ -534,10 +498,12 @@ impl<'a> World<'a> {
     fn probe_load(&mut self) {
         let own = self.last_bytes.as_ref().and_then(|b| parse_file(b));
         let cfg = self.cfg.clone();
-        // which of several peers stamped during this run is trimmed can depend on a preemption inside
-        // the call (see execute()); then only the counts reach the log
-        let identities = !own.as_ref().map(|o| self.trim_sensitive(o, 0)).unwrap_or(false);
+        let _ = hooks::take_trim_window();
         let res = catch_unwind(AssertUnwindSafe(|| BootstrapCacheStore::load_cache_data(&cfg)));
+        let took = hooks::take_trim_window();
+        if own.as_ref().map(|o| self.clock_decided(o, 0, took)).unwrap_or(false) {
+            self.race_suspect = true;
+        }
         let writers = if self.flights.is_empty() { "none_in_flight" } else { "writers_in_flight" };
         match res {
             Err(p) => {
@@ -576,11 +542,7 @@ impl<'a> World<'a> {
             }
             Ok(Ok(data)) => {
                 let l = snap_of(&data);
-                if identities {
-                    self.rep.log(format!("  probe: load -> Ok {}", self.render(&l)));
-                } else {
-                    self.rep.log(format!("  probe: load -> Ok {} peers {} addrs (trimmed among peers stamped during the run)", l.n_nonempty_peers(), l.n_addrs()));
-                }
+                self.rep.log(format!("  probe: load -> Ok {}", self.render(&l)));
                 if self.file_state == FileState::Corrupt {
                     self.rep.probe("load_ok_on_corrupted_file");
                 }
@@ -654,34 +616,13 @@ impl<'a> World<'a> {
             SHAPE_RELAYED => Some(good_addr(self.plan.ukey, relay, var)),
             _ => None,
         };
-        if self.trim_sensitive(&before, 1) {
-            let mut tries = 0;
-            loop {
-                let backup = self.procs[p].as_ref().unwrap().clone();
-                self.before_stamping_op();
-                let mut store = self.procs[p].take().unwrap();
-                let mm = m.clone();
-                let (store, took) = self.on_op_thread(move || {
-                    store.add_addr(mm);
-                    (store, hooks::take_trim_window())
-                });
-                self.procs[p] = Some(store);
-                self.last_stamp = Instant::now();
-                tries += 1;
-                if !self.clock_decided(&before, 1, took) {
-                    break;
-                }
-                if tries >= 50 {
-                    self.race_suspect = true;
-                    break;
-                }
-                // undo and repeat: the call was preempted inside a clock-sensitive comparison
-                self.procs[p] = Some(backup);
-            }
-        } else {
-            self.before_stamping_op();
-            self.procs[p].as_mut().unwrap().add_addr(m);
-            self.last_stamp = Instant::now();
+        self.before_stamping_op();
+        let _ = hooks::take_trim_window();
+        self.procs[p].as_mut().unwrap().add_addr(m);
+        let took = hooks::take_trim_window();
+        self.last_stamp = Instant::now();
+        if self.clock_decided(&before, 1, took) {
+            self.race_suspect = true;
         }
         self.rep.ops += 1;
         let after = self.mem_snap(p).unwrap();
@@ -758,28 +699,11 @@ impl<'a> World<'a> {
             self.rep.log(format!("cleanup p{p}: process busy flushing, skipped"));
             return;
         };
-        if self.trim_sensitive(&before, 0) {
-            let mut tries = 0;
-            loop {
-                let backup = self.procs[p].as_ref().unwrap().clone();
-                let mut store = self.procs[p].take().unwrap();
-                let (store, took) = self.on_op_thread(move || {
-                    store.perform_cleanup();
-                    (store, hooks::take_trim_window())
-                });
-                self.procs[p] = Some(store);
-                tries += 1;
-                if !self.clock_decided(&before, 0, took) {
-                    break;
-                }
-                if tries >= 50 {
-                    self.race_suspect = true;
-                    break;
-                }
-                self.procs[p] = Some(backup);
-            }
-        } else {
-            self.procs[p].as_mut().unwrap().perform_cleanup();
+        let _ = hooks::take_trim_window();
+        self.procs[p].as_mut().unwrap().perform_cleanup();
+        let took = hooks::take_trim_window();
+        if self.clock_decided(&before, 0, took) {
+            self.race_suspect = true;
         }
         self.rep.ops += 1;
         let after = self.mem_snap(p).unwrap();
